@@ -31,7 +31,7 @@ func run(r *vk.Run) {
 		"ending the handler at every position with each of %d error kinds (status, plain error, context errors, empty message, wrapped status, long message) or nil, the client cancelling or its deadline expiring at every position followed by every order of {client reads outcome, server observes (ctx / Recv) and returns ctx error | other error | nil}, "+
 		"the bidi half-close at every position, pairs (header event position x trailer/error/cancel position), pre-cancelled and pre-expired contexts. Random: %d scripts by a random walk over the same validity automaton with 0..5 messages per direction. "+
 		"Each script runs on a bufconn gRPC connection and on wrap.ServerToClient with the same handler; compared: response messages and order, terminal outcome, header metadata (while open and at the end), trailer metadata, server-received messages; wrapped side only: hang and leftover pkg/wrap goroutines at a quiescent point. "+
-		"Plus: unknown methods and all 16 (method shape x requested shape) combinations; %d x 4 aliasing scenarios with random TestAllTypes messages (same and different descriptor identity) with in-place mutation of every reachable value after the call. "+
+		"Plus: the incoming user metadata a handler sees for six kinds of client context (none, outgoing, incoming only, both, empty outgoing, binary) on unary and bidirectional calls; unknown methods and all 16 (method shape x requested shape) combinations; %d x 4 aliasing scenarios with random TestAllTypes messages (same and different descriptor identity) with in-place mutation of every reachable value after the call. "+
 		"A case is distinct by its shape and step sequence; trivial cases are not counted separately because every script contains a complete call.", maxMsg, len(errKinds), randomN, aliasN),
 		"lock-step: a step starts only after every party of the previous step has returned; a message send always has its receiver already waiting or starting concurrently; a SendHeader (and the SendAndClose of a client-streaming handler) on the real transport is followed by a quiescent point so that the frames have reached the client's transport before anything else happens",
 		"the steps 'client starts its final blocking call' and 'client context ends' are followed by a quiescent point on both transports: the step is complete when every goroutine reacting to it has done so (the client is parked inside the call; cancellation has propagated)",
@@ -85,6 +85,9 @@ func run(r *vk.Run) {
 	}
 
 	e.miscMethods()
+	if r.Shard == 0 || r.Only != "" {
+		e.requestMetadata()
+	}
 
 	for k := 0; k < aliasN; k++ {
 		for _, shape := range []string{Unary, Bidi} {
